@@ -132,3 +132,57 @@ def enc_gate(mode):
         unwind=12,
         cases=[dict(name="m%d" % mode, defs={"VF_MODE": mode})],
     )
+
+
+API_VERS = [("tls11", "(v_tls_1_1|v_tls_negotiated)"), ("tls12", "(v_tls_1_2|v_tls_negotiated)"),
+            ("tls13", "(v_tls_1_3|v_tls_negotiated)"), ("dtls12", "(v_dtls_1_2|v_tls_negotiated)")]
+
+
+def api_loops(nmax, dtls, aead=False):
+    """the three `goto DECODE_MORE` back-edges of matrixSslReceivedData are
+    nested loops for CBMC; bounds from the code: every SUCCESS / RETRANSMIT
+    iteration consumes at least a record header (5 / 13 bytes) and needs bytes
+    left over, SSL_FULL is returned at most once per call (stub contract)"""
+    hdr = 13 if dtls else 5
+    if aead:
+        hdr += 16
+    it = (nmax - 1) // hdr + 1
+    f = "matrixSslReceivedData"
+    return {f + ":/goto DECODE_MORE/": 2,
+            f + ":/goto DECODE_MORE;[\\s\\S]*In this case/": it,
+            f + ":/goto DECODE_MORE;[\\s\\S]*Flight will be rebuilt/": it if dtls else 1,
+            f + ":/goto DECODE_MORE;[\\s\\S]*case SSL_PROCESS_DATA/": 2}
+
+
+def api_n(nm, nmax):
+    return 28 if "dtls" in nm else nmax
+
+
+def api_mem_loops(n):
+    return {"memmove:/for \\(i = 0/": 2 * n + 9, "realloc:/for \\(/": 2 * n + 9, "matrixSslDecode:/for \\(i = 0/": n + 1,
+            "suffix_intact:/for \\(i = 0/": n + 1, "vf_harness:/for \\(i = 0/": n + 1}
+
+
+def api_recv(checks=None, nmax=12, only=None):
+    """public receive API over a decoder contract stub (C18.b/d, C08.c, C01.c)"""
+    h = dict(
+        name="api_recv", dir="C18", src="api_recv.c", checks=checks if checks is not None else MEMCHECKS,
+        units=["matrixssl/hsNegotiateVersion.c"],
+        functions=["matrixSslReceivedData", "matrixSslProcessedData", "matrixSslSentData", "revertToDefaultBufsize", "matrixSslHandshakeIsComplete"],
+        sources=["matrixssl/matrixsslApi.c"],
+        assumptions=[
+            "api_recv: matrixSslDecode is a contract stub: SUCCESS/PROCESS_DATA/ALERT consume k in [record header, len] bytes, PROCESS_DATA/ALERT leave n <= k-header plaintext bytes at the buffer front and rec.len = k - header - read-direction AEAD overhead (decided against the real decoders: c18.consumed_equals_record_bookkeeping, c01.remaining, c02.cbc_min_len); SEND_RESPONSE writes <= size bytes at the front; PARTIAL asks for more than is buffered; FULL at most once per call; ERROR returns a negative code",
+            "api_recv: caller contract: bytes <= space offered by matrixSslGetReadbuf, sent bytes <= outlen; buffers are heap objects of exactly insize/outsize bytes (1..%d); SSL_DEFAULT_IN/OUT_BUF_SIZE scaled to 12 so that grow and shrink paths are inside the bound; realloc never fails" % nmax,
+        ],
+        unwindset={"matrixSslDecode:/for \\(i = 0/": nmax + 1,
+                   "suffix_intact:/for \\(i = 0/": nmax + 1, "vf_harness:/for \\(i = 0/": nmax + 1,
+                   "memmove:/for \\(i = 0/": 2 * nmax + 9, "realloc:/for \\(/": 2 * nmax + 9, "vf_chk:/for \\(j = 0/": 5, "buffers_ri:/for \\(j = 0/": 5},
+        cases=[dict(name="recv_" + nm, defs={"VF_VER": v, "VF_OP": 0, "VF_NMAX": api_n(nm, nmax)},
+                    unwindset=dict(api_loops(api_n(nm, nmax), "dtls" in nm), **api_mem_loops(api_n(nm, nmax)))) for nm, v in API_VERS] +
+              [dict(name="recv_tls12_aead", defs={"VF_VER": API_VERS[1][1], "VF_OP": 0, "VF_NMAX": 34, "VF_AEAD": 1}, cap_s=900,
+                    unwindset=dict(api_loops(34, False, True), **api_mem_loops(34)))] +
+              [dict(name="sent_tls12", defs={"VF_VER": API_VERS[1][1], "VF_OP": 1, "VF_NMAX": nmax})],
+    )
+    if only:
+        h["cases"] = [c for c in h["cases"] if c["name"] in only]
+    return h
